@@ -38,7 +38,14 @@ def run_case(case, path):
         r = MixedLogReader(path, **kw)
         if late is not None:
             r.filter_in_place(None, source_ids=set(late))
-        out['res'] = [L.canon_result(x, flags) for x in r]
+        live, kept = [], []
+        for x in r:
+            live.append(L.canon_result(x, flags))     # as seen inside the loop
+            kept.append(x)
+        out['res'] = live
+        # as seen by a caller that keeps the results (list(reader)): snapshot taken after the whole iteration
+        out['res_after'] = [L.canon_result(x, flags) for x in kept]
+        out['alias'] = L.aliased(kept, flags)
     except Exception as e:
         out['err'] = type(e).__name__
         out['msg'] = str(e)[:200]
